@@ -157,6 +157,20 @@ def family_lines(k, leaves=("x", "- y", "# h")):
             yield base, vs
 
 
+def blank_family():
+    """whitespace-only lines, spelled with tabs, inside multi-line constructs that stand in a container: some rules compare such a
+    line's indentation (in columns) with the container's before they ask whether it is empty"""
+    openers = [("- <pre>", "  x</pre>"), ("1. <!--", "   -->"), ("- <script>", "  </script>"), ("- <style>", "  </style>"), ("- <?x", "  ?>"),
+               ("- <![CDATA[", "  ]]>"), ("- <!X", "  >"), ("- ```", "  ```"), ("-     code", "      more"), ("- a", "  b"), ("> <pre>", "> </pre>"),
+               ("1. a", "   b"), ("- - <pre>", "    y</pre>"), ("   <pre>", "   </pre>"), ("- > a", "  > b"), ("- <div>", "  </div>")]
+    blanks = ["\t", " \t", "  \t", "   \t", "\t ", "\t\t", " \t \t", "  \t  ", "\t   "]
+    for op, cl in openers:
+        for b in blanks:
+            for pre in ("", "> " if not op.startswith(">") else ""):
+                yield "\n".join(pre + x for x in (op, b, cl)) + "\n"
+            yield op + "\n" + b + "\n" + b + "\n" + cl + "\n"
+
+
 def same_modulo_verbatim(md, a: str, b: str):
     ta, tb = md.parse(a), md.parse(b)
     if any(t.type == "html_block" for t in ta) or any(t.type == "html_block" for t in tb):
@@ -380,6 +394,21 @@ def run(ctx: Ctx) -> None:
                                     break
                         except Exception:
                             pass
+        mdh = MarkdownIt("commonmark", {"html": True})
+        nb = 0
+        for d0 in blank_family():
+            e0 = expand_leading(d0)
+            nb += 1
+            ctx.count((d0, "blank-line"), nontrivial=True)
+            try:
+                for m_ in (mdh, md):
+                    if struct_proj(m_.parse(d0)) != struct_proj(m_.parse(e0)) or not same_modulo_verbatim(m_, d0, e0):
+                        ctx.fail("leading-tabs", "a whitespace-only line spelled with tabs is not equivalent to its column-exact expansion",
+                                 {"input": d0, "expanded": e0, "cfg": "commonmark"})
+                        break
+            except Exception:
+                pass
+        ctx.cov["blank_line_cases"] = nb
         ctx.cov["indented_line_cases"] = nc
         ctx.cov["tab_family_variants"] = fam
         ctx.cov["tab_family_exhaustive_up_to_segments"] = 2 if quick else 3
@@ -430,6 +459,14 @@ def search(ctx: Ctx):
             for s in vs:
                 if md.render(s) != hb and "<pre>" not in hb:
                     return Finding("marker-tabs", "tab after a container marker not equivalent to spaces", {"input": s, "space_twin": base})
+    for d0 in blank_family():
+        e0 = expand_leading(d0)
+        try:
+            if struct_proj(md.parse(d0)) != struct_proj(md.parse(e0)):
+                return Finding("leading-tabs", "a whitespace-only line spelled with tabs is not equivalent to its column-exact expansion",
+                               {"input": d0, "expanded": e0, "cfg": "commonmark"})
+        except Exception:
+            pass
     for d in gens.doc_stream(ctx.rng, 3000, 6):
         d0 = d.replace("\r", "")
         try:
